@@ -88,6 +88,8 @@ def judge(recs):
     c_got_add = False       # C received B's update_add_htlc ...
     c_committed = False     # ... and a commitment_signed covering it: C holds a commitment with the HTLC
     stale_refail = {"reload": False, "outdated": False, "invalid_forward": False}
+    reload_step = None
+    startup_close_d = False  # B itself force-closed D while starting up (its manager was older than D's monitor)
     params = {}
     end = None
     for (ln, step, kind, kv) in recs:
@@ -114,6 +116,8 @@ def judge(recs):
             inprog = kv["ret"] == "P"
             s = Snap(int(kv["id"]), kv.get("view", "o0i0p0"), not inprog, int(kv["id"]) if (inprog and kind == "PERSIST") else None, step)
             snaps.setdefault(ch, []).append(s)
+            if kind == "PERSIST" and ch == "D" and "ChannelForceClosed" in kv.get("steps", "") and reload_step == step:
+                startup_close_d = True
             if inprog and kind == "PERSIST":
                 F["async_persists"] += 1
                 if ch == "U" and "PaymentPreimage" in kv.get("steps", ""):
@@ -144,6 +148,7 @@ def judge(recs):
         elif kind == "RELOAD":
             F["reloads"] += 1
             stale_refail["reload"] = True
+            reload_step = step
             if fulfil_recv:
                 F["reload_after_fulfil"] += 1
             if u_pre_pending is not None:
@@ -244,7 +249,7 @@ def judge(recs):
                     else:
                         ok = onchain_timeout_safe(funding.get("D"), txs, confirmed, out_adds[-1], height)
                 if ok is None:
-                    f1 = all(stale_refail.values()) and dfail < 4
+                    f1 = (all(stale_refail.values()) or startup_close_d) and dfail < 4
                     V.append({"key": F1 if f1 else "d:fail-only-when-safe", "judge": "d:fail-only-when-safe",
                               "why": "B fails the HTLC back to A at height %d while the downstream HTLC (amt %d, expiry %d) is neither irrevocably failed by C nor timed out on chain %d blocks deep (downstream fail progress %d/4)" % (height, out_adds[-1][0], out_adds[-1][1], ANTI_REORG_DELAY, dfail),
                               "step": step})
